@@ -31,7 +31,8 @@ CHECKS = {
          "set and for a fully symbolic 2x2 (thorough: 3x2, 3x3) cone matrix; the θ-cone's angle semantics is proved for all "
          "θ in (0,180) at once on the symbolic output of the real get_2d_w (half-angle parametrisation), 3-D and ice-cream "
          "cones on the real constructors' output in exact arithmetic. Integer-dtype cone matrices are included (a float→int "
-         "cast met on the way is modelled as truncation toward zero).",
+         "cast met on the way is modelled as truncation toward zero). A concrete binary64 clause enumerates lattice pairs "
+         "whose difference lies exactly on a facet (exactly computable ties only) at many common offsets.",
     note=REAL + "trusted trig identities tan(π/4∓h)=(c∓s)/(c±s), tan(π/2−θ)=cosθ/sinθ; ice-cream half-angle on a grid "
          "(symbolic θ did not terminate in nlsat); mpmath enclosures with 1e-9 band at concrete angles",
     technique="symbolic execution of the real numpy code on z3 reals + SMT (QF_LRA/QF_NRA)",
@@ -175,7 +176,8 @@ CHECKS = {
          "real constructor computes for the default L (symbolic noise variance and ε; θ, δ, K on a grid) is proved (NRA) to "
          "dominate the necessary sample count of the two-design instance with gap just above ε; refutations are confirmed by "
          "the closed-form failure probability of that instance on the real class, and to reach the paper's sufficient count "
-         "4(cσβ/ε)²ln(·) with β from the θ-cone's closed form (one-sided).",
+         "4(cσβ/ε)²ln(·) with β from the θ-cone's closed form (one-sided). The sampling oracle's noise law (AᵀA = noise_var·I "
+         "on the real ProblemFromDataset) is an obligation too.",
     note=REAL + "clause A is a necessary condition (two-design instance, Gaussian noise); sufficiency for arbitrary design sets "
          "is the paper's lemma; K=3, L<=3 for clause B",
     technique="symbolic execution of the real numpy code on z3 reals + SMT (QF_LRA / NRA with an integer ceil)",
@@ -187,7 +189,8 @@ CHECKS = {
          "its argument recorded), pushed through the real design_space.update / region update, and the resulting standardised "
          "half-width (rectangles) or squared radius (ellipsoids) is proved by z3 (NRA) large enough that a standard Gaussian / "
          "χ² tail bound times the number of (design, objective) events fits under 6δ/(π²τ²), whose sum over τ is δ. The premise of the bandit schedules (a region "
-         "rebuilt in round t averages t samples) is a run-level obligation on the real PaVeBa / Auer steps. A negative "
+         "rebuilt in round t averages t samples) is a run-level obligation on the real PaVeBa / Auer steps; the structural "
+         "clause feeds a correlated symbolic covariance (half-widths = scale × marginal std). A negative "
          "control (contraction 64) must be refuted; refutations are confirmed numerically with exact tails over the horizon.",
     note="trusted: Gaussianity of sample means / GP posteriors, tail bounds, Σ τ⁻² = π²/6, exp/ln algebra and Taylor lower "
          "bounds; m = 2..3 (quick) / 2..6 (thorough; PaVeBaPartialGP ellipsoid 2..4); VOGP_AD's β and empirical-β Auer outside; " + REAL,
